@@ -27,7 +27,7 @@ BL_EPS = {"blacklist", "refundUsers", "unblacklist"}
 PROPS = {
     "C01": dict(
         title="Ticket-payment solvency",
-        lean=["LP.Props.C01", "LP.Props.C01reach", "LP.Props.C01reachV2", "LP.Props.C01reachV1", "LP.Props.C01reachG1", "LP.Props.C14reach", "LP.Props.C14reachG", "LP.Props.AllVariants", "LP.Props.C09nothing", "LP.Props.C01receipts", "LP.Props.C01owner", "LP.Props.C01zero", "LP.Props.C14zero", "LP.Props.C01zeroV1", "LP.Props.C01zeroG1", "LP.Props.C14zeroG", "LP.Props.C14zeroGfull"],
+        lean=["LP.Props.C01", "LP.Props.C01reach", "LP.Props.C01reachV2", "LP.Props.C01reachV1", "LP.Props.C01reachG1", "LP.Props.C14reach", "LP.Props.C14reachG", "LP.Props.AllVariants", "LP.Props.C09nothing", "LP.Props.C01receipts", "LP.Props.C01owner", "LP.Props.C01zero", "LP.Props.C14zero", "LP.Props.C01zeroV1", "LP.Props.C01zeroG1", "LP.Props.C14zeroG", "LP.Props.C14zeroGfull", "LP.Props.C01zeroG1full"],
         profiles=[("life", ALL_VARIANTS), ("chunks", ALL_VARIANTS)],
         R={"xf.pay": {"claim", "claimPayment", "blacklist", "refundUsers"},
            "st": ({"claim", "claimPayment"}, FUNDS_MSGS)},
@@ -43,7 +43,7 @@ PROPS = {
     ),
     "C03": dict(
         title="Exactly min(T, confirmed) distinct winners",
-        lean=["LP.Props.C03base", "LP.Props.C03final", "LP.Props.C01reach", "LP.Props.C01reachV2", "LP.Props.C01reachV1", "LP.Props.C01reachG1", "LP.Props.C14reach", "LP.Props.C14reachG", "LP.Props.AllVariants2", "LP.Props.C03proceeds", "LP.Props.C01zero", "LP.Props.C14zero", "LP.Props.C01zeroV1", "LP.Props.C01zeroG1"],
+        lean=["LP.Props.C03base", "LP.Props.C03final", "LP.Props.C01reach", "LP.Props.C01reachV2", "LP.Props.C01reachV1", "LP.Props.C01reachG1", "LP.Props.C14reach", "LP.Props.C14reachG", "LP.Props.AllVariants2", "LP.Props.C03proceeds", "LP.Props.C01zero", "LP.Props.C14zero", "LP.Props.C01zeroV1", "LP.Props.C01zeroG1", "LP.Props.C01zeroG1full"],
         profiles=[("life", ALL_VARIANTS), ("fy", ["base", "guarV2"]), ("chunks", GUAR), ("topup", GUAR), ("reserve", GUAR)],
         R={"ret": {"select", "distribute"}},
         D={"nrw": SELECT_EPS | {"claim"}, "status": SELECT_EPS, "cpay": SELECT_EPS, "last": SELECT_EPS, "addr.win": SELECT_EPS,
@@ -110,7 +110,7 @@ PROPS = {
     ),
     "C12": dict(
         title="Guarantee reserve conserved; leftovers re-drawn",
-        lean=["LP.Props.C12reserve", "LP.Props.C03final", "LP.Props.C01reachV2", "LP.Props.C01reachV1", "LP.Props.C01reachG1", "LP.Props.C14reachG", "LP.Props.AllVariants2", "LP.Props.C01zeroV1", "LP.Props.C01zeroG1", "LP.Props.C14zeroGfull"],
+        lean=["LP.Props.C12reserve", "LP.Props.C03final", "LP.Props.C01reachV2", "LP.Props.C01reachV1", "LP.Props.C01reachG1", "LP.Props.C14reachG", "LP.Props.AllVariants2", "LP.Props.C01zeroV1", "LP.Props.C01zeroG1", "LP.Props.C14zeroGfull", "LP.Props.C01zeroG1full"],
         profiles=[("reserve", GUAR), ("topup", GUAR), ("life", GUAR), ("chunks", GUAR)],
         R={"st": [(ALLOC_EPS | BL_EPS, RESERVE_MSGS), ({"deposit"}, ["Wrong amount"])],
            "draws": {"distribute"}},
@@ -119,7 +119,7 @@ PROPS = {
     ),
     "C13": dict(
         title="Vesting is path-independent, monotone, bounded",
-        lean=["LP.Props.C13", "LP.Props.C01reachG1", "LP.Props.C13reachV2", "LP.Props.C01owner"],
+        lean=["LP.Props.C13", "LP.Props.C01reachG1", "LP.Props.C13reachV2", "LP.Props.C01owner", "LP.Props.C01zeroG1full"],
         profiles=[("vest", ["guarV1", "guarV2"]), ("life", ["guarV1", "guarV2"])],
         R={"st": [({"setSchedule1", "setSchedule2"}, None), ({"claim"}, ["Already claimed all", "negative", "cannot subtract", "claimable - claimed", "insufficient funds"])],
            "xf.lp": {"claim"}},
